@@ -108,6 +108,13 @@ PROPS["C12"] = dict(
                "alphabet up to a stated length: same accept/reject, consumed count, mantissa/exponent value and digit slices.",
     assumptions=["bounded: instantiated format list and input length; integer-parser flags (leading zeros, base prefix) not covered yet"],
 )
+PROPS["C13"] = dict(
+    title="Digit separators never change a value",
+    level_text="Relational contracts between a separator format F and its separator-free counterpart F0 on the real tokenizer: "
+               "(R1) an input accepted under F is accepted with the same value under F0 once the separators are deleted; "
+               "(R2) an input without separator bytes is treated identically by F and F0. Bounded: instantiated formats, input length, digit templates.",
+    assumptions=["bounded: format list, input length <= 6, digit templates; separator *position* legality (leading/internal/trailing classification) is not checked yet"],
+)
 PROPS["C15"] = dict(
     title="Special values and signed zero are handled consistently",
     level_text="Special-string recognition (complete and partial) equals a reference prefix matcher for default, custom "
